@@ -905,8 +905,9 @@ package ucfg
 //@ modifies tree(to)
 //@ ensures [emptyB] old(from.fields.d) == nil ==> result == nil && to.fields.d == old(to.fields.d)
 //@ ensures [source_untouched @C01,C10,C11] from.fields == old(from.fields) && from.fields.d == old(from.fields.d) && forall k string :: has(from.fields.d, k) == old(has(from.fields.d, k)) && (has(from.fields.d, k) ==> from.fields.d[k] == old(from.fields.d[k]))
-//@ ensures [union_keys] result == nil && old(from.fields.d) != nil && old(opts.configValueHandling) != cfgReplaceValue ==> forall k string :: has(to.fields.d, k) == (old(has(to.fields.d, k)) || old(has(from.fields.d, k)))
-//@ ensures [replace_keys] result == nil && old(opts.configValueHandling) == cfgReplaceValue && old(len(from.fields.d)) != 0 ==> forall k string :: has(to.fields.d, k) == old(has(from.fields.d, k))
+// [union_keys] is the statement of C01 ("the union of the two dictionaries at every level", for every policy); under
+// ReplaceValues the code replaces the dictionary instead (documented by the library): a known finding with that region
+//@ ensures [union_keys @C01] result == nil && old(from.fields.d) != nil ==> forall k string :: has(to.fields.d, k) == (old(has(to.fields.d, k)) || old(has(from.fields.d, k)))
 //@ ensures [new_keys @C01,C10,C15] result == nil && old(len(from.fields.d)) != 0 ==> forall k string :: old(has(from.fields.d, k)) && (old(opts.configValueHandling) == cfgReplaceValue || !old(has(to.fields.d, k))) ==> copyOf(to.fields.d[k], mvSpec(nilv(), old(from.fields.d[k]))) && fresh(to.fields.d[k]) && cctx(to.fields.d[k]).parent == subval(to) && cctx(to.fields.d[k]).field == k
 //@ ensures [both_keys @C01,C10,C15] result == nil && old(len(from.fields.d)) != 0 && old(opts.configValueHandling) != cfgReplaceValue ==> forall k string :: old(has(from.fields.d, k)) && old(has(to.fields.d, k)) ==> copyOf(to.fields.d[k], mvSpec(old(to.fields.d[k]), old(from.fields.d[k]))) && fresh(to.fields.d[k]) && cctx(to.fields.d[k]).parent == subval(to) && cctx(to.fields.d[k]).field == k
 //@ ensures [A_only] result == nil && old(len(from.fields.d)) != 0 && old(opts.configValueHandling) != cfgReplaceValue ==> forall k string :: old(has(to.fields.d, k)) && !old(has(from.fields.d, k)) ==> to.fields.d[k] == old(to.fields.d[k])
